@@ -1084,6 +1084,8 @@ func all() []opLit {
 		// height NOT multiples of the block size so that the last block row and column overlap their
 		// neighbours): what readers are given in practice, and the size class where implementations
 		// start to pool buffers or to split the work
+		{"lum-sibling-band-read", func() string { return readBand(0) }},
+		{"lum-sibling-band-read-twin", func() string { return readBand(1) }},
 		{"lum-megapixel-frame", func() string {
 			const w, h = 1601, 1257
 			yuv := make([]byte, w*h)
